@@ -109,4 +109,101 @@ theorem filter_ssort (p : α → Bool) (l : List α) :
 
 end
 
+/-- key equivalence: neither sorts before the other -/
+def eqv (a b : α) : Bool := le a b && le b a
+
+theorem ins_head (a : α) (l : List α) (h : ∀ b ∈ l, le a b = true) : ins le a l = a :: l := by
+  cases l with
+  | nil => rfl
+  | cons b l => simp [ins, h b (by simp)]
+
+/-- sorting a list whose elements are pairwise key-equivalent changes nothing (stability) -/
+theorem ssort_of_all_le (l : List α) (h : ∀ a ∈ l, ∀ b ∈ l, le a b = true) : ssort le l = l := by
+  induction l with
+  | nil => rfl
+  | cons a l ih =>
+    show ins le a (ssort le l) = a :: l
+    rw [ih (fun x hx y hy => h x (List.mem_cons_of_mem _ hx) y (List.mem_cons_of_mem _ hy))]
+    exact ins_head le a l (fun b hb => h a (by simp) b (List.mem_cons_of_mem _ hb))
+
+section
+variable (total : ∀ a b, le a b = true ∨ le b a = true)
+variable (trans : ∀ a b c, le a b = true → le b c = true → le a c = true)
+
+include total trans in
+/-- the members of one key class keep their input order through the sort -/
+theorem filter_class_ssort (a : α) (l : List α) :
+    (ssort le l).filter (eqv le a) = l.filter (eqv le a) := by
+  rw [filter_ssort le total trans]
+  apply ssort_of_all_le
+  intro x hx y hy
+  have hx' := (List.mem_filter.mp hx).2
+  have hy' := (List.mem_filter.mp hy).2
+  simp only [eqv, Bool.and_eq_true] at hx' hy'
+  exact trans x a y hx'.2 hy'.1
+
+include total in
+/-- two sorted lists with the same elements and the same order inside every key class are equal -/
+theorem sorted_eq_of_classes : ∀ (s₁ s₂ : List α), Sorted le s₁ → Sorted le s₂ → s₁.Perm s₂ →
+    (∀ a, s₁.filter (eqv le a) = s₂.filter (eqv le a)) → s₁ = s₂ := by
+  intro s₁
+  induction s₁ with
+  | nil => intro s₂ _ _ hp _; exact List.Perm.nil_eq hp
+  | cons h₁ t₁ ih =>
+    intro s₂ hs₁ hs₂ hp hc
+    cases s₂ with
+    | nil => exact absurd hp.symm (by simp)
+    | cons h₂ t₂ =>
+      have hrefl : ∀ x : α, le x x = true := fun x => (total x x).elim id id
+      have h12 : le h₁ h₂ = true := by
+        have : h₂ ∈ h₁ :: t₁ := hp.symm.subset (by simp)
+        rcases List.mem_cons.mp this with h | h
+        · rw [h]; exact hrefl _
+        · exact hs₁.1 _ h
+      have h21 : le h₂ h₁ = true := by
+        have : h₁ ∈ h₂ :: t₂ := hp.subset (by simp)
+        rcases List.mem_cons.mp this with h | h
+        · rw [h]; exact hrefl _
+        · exact hs₂.1 _ h
+      have hh := hc h₁
+      simp only [List.filter_cons, eqv, hrefl, h12, h21, Bool.and_self, ↓reduceIte] at hh
+      have heq : h₁ = h₂ := (List.cons.inj hh).1
+      subst heq
+      congr 1
+      apply ih t₂ hs₁.2 hs₂.2 (List.Perm.cons_inv hp)
+      intro a
+      have := hc a
+      simp only [List.filter_cons] at this
+      by_cases ha : eqv le a h₁ = true
+      · simp only [ha, ↓reduceIte] at this; exact (List.cons.inj this).2
+      · simp only [ha, Bool.false_eq_true, ↓reduceIte] at this; exact this
+
+include total trans in
+/-- **Stable sort is a function of the elements and of the order inside each key class.** -/
+theorem ssort_congr (l₁ l₂ : List α) (hp : l₁.Perm l₂)
+    (hc : ∀ a, l₁.filter (eqv le a) = l₂.filter (eqv le a)) : ssort le l₁ = ssort le l₂ := by
+  apply sorted_eq_of_classes le total
+  · exact sorted_ssort le total trans l₁
+  · exact sorted_ssort le total trans l₂
+  · exact (ssort_perm le l₁).trans (hp.trans (ssort_perm le l₂).symm)
+  · intro a
+    rw [filter_class_ssort le total trans, filter_class_ssort le total trans, hc a]
+end
+
+/-- permuting the blocks of a `flatMap` does not matter when, for every two different blocks, one is empty -/
+theorem flatMap_perm_sparse {β : Type} (g : β → List α) {l₁ l₂ : List β} (hp : l₁.Perm l₂)
+    (h : ∀ x ∈ l₁, ∀ y ∈ l₁, x ≠ y → g x = [] ∨ g y = []) : l₁.flatMap g = l₂.flatMap g := by
+  induction hp with
+  | nil => rfl
+  | cons x _ ih =>
+    simp only [List.flatMap_cons]
+    rw [ih (fun a ha b hb => h a (List.mem_cons_of_mem _ ha) b (List.mem_cons_of_mem _ hb))]
+  | swap x y l =>
+    simp only [List.flatMap_cons]
+    by_cases hxy : x = y
+    · subst hxy; rfl
+    · rcases h y (by simp) x (by simp) (fun e => hxy e.symm) with h' | h' <;> simp [h']
+  | trans p₁ _ ih₁ ih₂ =>
+    rw [ih₁ h, ih₂ (fun a ha b hb => h a (p₁.symm.subset ha) b (p₁.symm.subset hb))]
+
 end RefurbVerif
